@@ -78,6 +78,7 @@ func VerifC01NodeLed() {
 	ctx := context.Background()
 	st := &vfs.Storage{}
 	t0 := vf.Now()
+	vf.ShortScenario(t0, time.Second)
 	vfs.StoreRoots(ctx, st, t0)
 	vfRecord(ctx, st, 5, vf.Bytes("othernonce", 32), vf.X25519Pub(2), 8) // an unrelated node
 	hasRec := vf.Bool("record-present")
@@ -115,6 +116,7 @@ func VerifC01Token() {
 	ctx := context.Background()
 	st := &vfs.Storage{}
 	t0 := vf.Now()
+	vf.ShortScenario(t0, time.Second)
 	vfs.StoreRoots(ctx, st, t0)
 	tokenId, token, err := CreateServerLedActivationToken(ctx, st, &types.ServerLedRegistrationRequest{})
 	if err != nil {
@@ -192,6 +194,7 @@ func VerifC01Wrapped() {
 	ctx := context.Background()
 	st := &vfs.Storage{}
 	t0 := vf.Now()
+	vf.ShortScenario(t0, time.Second)
 	vfs.StoreRoots(ctx, st, t0)
 	serverWrapper, foreignWrapper := vfAeadWrapper("reg", 6), vfAeadWrapper("reg", 7)
 	reqKey := vf.Int("reqkey", 2, 3)
@@ -263,6 +266,7 @@ func VerifC01Rewrapped() {
 	ctx := context.Background()
 	st := &vfs.Storage{}
 	t0 := vf.Now()
+	vf.ShortScenario(t0, time.Second)
 	vfs.StoreRoots(ctx, st, t0)
 	// the registered intermediary: certificate key 4, encryption key pair 0, server side key pair 9
 	mid := vfRecord(ctx, st, 4, vf.Bytes("midnonce", 32), vf.X25519Pub(0), 9)
